@@ -192,7 +192,7 @@ func genC12(t *rapid.T) C12Case {
 	}
 	c.Payload = rapid.SampledFrom([]string{"valid-padded", "valid-padded", "valid-ws-padded", "run", "valid-nul-padded", "valid-ff-padded", "valid-bom-padded", "valid-utf8-padded", "valid-utf8-padded"}).Draw(t, "payload")
 	if rapid.IntRange(0, 5).Draw(t, "envelope") == 0 {
-		c.Envelope = rapid.SampledFrom([]string{"zlib", "gzip"}).Draw(t, "envelopeKind")
+		c.Envelope = rapid.SampledFrom([]string{"zlib", "gzip", "multi-2", "multi-3", "multi-many"}).Draw(t, "envelopeKind")
 	}
 	return c
 }
@@ -286,7 +286,22 @@ func checkC12(c C12Case) h.Outcome {
 	o.Classes = []string{fmt.Sprintf("limit:%d", c.Limit), "rel:" + c.Relation, "payload:" + c.Payload, "kind:" + c.Kind, fmt.Sprintf("level:%d", c.Level)}
 	raw := c.payload()
 	comp := h.Deflate(raw, c.Level)
-	if c.Envelope != "" {
+	firstStream := int64(0) // expansion of the first of several streams when that part is a complete document
+	if strings.HasPrefix(c.Envelope, "multi-") {
+		// several complete DEFLATE streams written back to back, each expanding to LESS than the limit, together to
+		// more: the limit is about what the message expands to, however it is cut up
+		k := map[string]int{"multi-2": 2, "multi-3": 3, "multi-many": 256}[c.Envelope]
+		var buf bytes.Buffer
+		for i := 0; i < k; i++ {
+			lo, hi := len(raw)*i/k, len(raw)*(i+1)/k
+			buf.Write(h.Deflate(raw[lo:hi], c.Level))
+		}
+		comp = buf.Bytes()
+		o.Classes = append(o.Classes, "envelope:"+c.Envelope)
+		if c.Payload != "valid-padded" && c.Payload != "valid-utf8-padded" && c.Payload != "run" {
+			firstStream = int64(len(raw) / k) // with comment padding or a run the first part is never a document
+		}
+	} else if c.Envelope != "" {
 		var buf bytes.Buffer
 		var w io.WriteCloser
 		lvl := c.Level
@@ -325,6 +340,19 @@ func checkC12(c C12Case) h.Outcome {
 		runtime.ReadMemStats(&ms1)
 		alloc := int64(ms1.TotalAlloc - ms0.TotalAlloc)
 		size := int64(len(raw))
+		if firstStream > 0 && firstStream <= lim && err == nil {
+			// several streams, and the FIRST one is within the limit and a complete document by itself (the padding
+			// after the root is white space or junk): a decoder that stops at the end of the first stream has seen a
+			// message within the limit. Nothing to demand of the verdict; the memory bound below still applies.
+			o.Classes = append(o.Classes, "multi:first-stream-complete")
+			if size >= 64*lim {
+				if bound := 8*maxI64(lim, int64(len(comp))) + 4<<20; alloc > bound {
+					o.Violation = h.V("unbounded-inflation/"+e.name, "%s allocated %d bytes for %d back-to-back streams expanding to %d bytes in total (limit %d, bound %d)", e.name, alloc, 256, size, lim, bound)
+					return o
+				}
+			}
+			continue
+		}
 		if size > lim {
 			if err == nil {
 				o.Violation = h.V("over-limit-accepted/"+e.name, "%s accepted a compressed message inflating to %d bytes with limit %d", e.name, size, lim)
@@ -361,7 +389,7 @@ func checkC12(c C12Case) h.Outcome {
 	}
 	// ---- the same payload on an unverified decoder FIRST (a multi-IdP deployment pre-decodes every message), then on
 	// a validator of a service provider with its own limit: the second call decides by its own limit, exactly as alone
-	if size := int64(len(raw)); size > L && size <= defaultLimit && len(comp) < 1<<20 {
+	if size := int64(len(raw)); size > L && size <= defaultLimit && len(comp) < 1<<20 && firstStream == 0 {
 		for _, pre := range c12Entries {
 			if pre.limited {
 				continue
@@ -433,6 +461,14 @@ func TestC12_Grid(t *testing.T) {
 			}
 			if kind == "response" || h.Thorough() {
 				cases = append(cases, C12Case{Limit: l, Size: bomb, Payload: "run", Kind: kind, Level: 9, Relation: "bomb"})
+			}
+			if l != 0 || kind == "response" {
+				L := effLimit(l)
+				cases = append(cases, C12Case{Limit: l, Size: 2*L - 2, Payload: "valid-padded", Kind: kind, Level: 6, Relation: "2L", Envelope: "multi-2"},
+					C12Case{Limit: l, Size: 2 * L, Payload: "valid-ws-padded", Kind: kind, Level: 1, Relation: "2L", Envelope: "multi-3"})
+				if L <= 64*1024 {
+					cases = append(cases, C12Case{Limit: l, Size: 200 * L, Payload: "valid-padded", Kind: kind, Level: 6, Relation: "64L", Envelope: "multi-many"})
+				}
 			}
 			if l == 0 || l == 1024 || h.Thorough() {
 				for _, env := range []string{"zlib", "gzip"} {
